@@ -270,6 +270,14 @@ def loop_var_types(ctx, fi: FuncInfo) -> Dict[str, Set[str]]:
                 if isinstance(n.target, ast.Name) and ts and not ts <= env.get(n.target.id, set()):
                     env.setdefault(n.target.id, set()).update(ts)
                     changed = True
+            elif isinstance(n, ast.Assign) and len(n.targets) == 1 and isinstance(n.targets[0], ast.Name):
+                from .pyindex import access_path as _ap
+                ap = _ap(n.value)
+                if ap and ('.' in ap or '[' in ap):
+                    ts = type_of_path(ctx, fi, ap, env)
+                    if ts and not ts <= env.get(n.targets[0].id, set()):
+                        env.setdefault(n.targets[0].id, set()).update(ts)
+                        changed = True
     return env
 
 
